@@ -3,7 +3,8 @@
    _handle_max_data_frame, _handle_max_stream_data_frame, _handle_max_streams_*_frame,
    _handle_stop_sending_frame, _unblock_streams, _parse_transport_parameters (the six flow-control
    parameters), the handshake-completion unblock, and the stream part of _write_application
-   (one call of _write_stream_frame / _write_reset_stream_frame / _write_stop_sending_frame per step; the loop
+   (one call of _write_stream_frame / _write_reset_stream_frame / _write_stop_sending_frame per step, and the
+   STREAMS_BLOCKED step; the loop
    of the `fixes` branch: RESET_STREAM and STOP_SENDING are skipped while the stream is blocked by the
    stream-count limit) on top of the C10 sender.
    Transport parameters come in two transcriptions: [OParams] is _parse_transport_parameters as it was up to
@@ -78,6 +79,7 @@ Inductive fout :=
 | FValueError                           (* ValueError from the public API *)
 | FQErr (code : Z)                      (* QuicConnectionError raised by a frame handler *)
 | FStop                                 (* a STOP_SENDING frame was written *)
+| FBlocked (limit : option Z)           (* _write_application's STREAMS_BLOCKED step for one kind: the frame's limit, or no frame *)
 | FIneligible                           (* the stream loop of _write_application would not make this call *)
 | FNoStream.                            (* no such stream (the call cannot happen) *)
 
@@ -159,6 +161,7 @@ Inductive fop :=
 | OStop (sid : Z)                                     (* stop_stream *)
 | OGetStop (sid : Z)                                  (* one _write_stop_sending_frame call *)
 | OStopDeliv (sid : Z) (acked : bool)                 (* delivery outcome of a STOP_SENDING frame *)
+| OBlockedFrame (uni : bool)                          (* the STREAMS_BLOCKED step of _write_application for one kind *)
 | OParamsP (m : pmode) (md msd_bl msd_br msd_uni ms_bidi ms_uni : option Z).   (* repaired _parse_transport_parameters *)
 
 Definition orz (o : option Z) (d : Z) : Z := match o with Some v => v | None => d end.
@@ -307,6 +310,13 @@ Definition fstep (c : conn) (op : fop) : fout * conn :=
       | None => (FNoStream, c)
       | Some _ => (FOk, if k then c else with_streams c (upd_strm sid (set_stop true) (c_streams c)))
       end
+  | OBlockedFrame uni =>
+      (* `if self._streams_blocked_bidi: self._write_streams_blocked_frame(..., limit=self._remote_max_streams_bidi)`
+         (and the same for uni); WHEN the step runs (_handshake_complete and _streams_blocked_pending) is an input *)
+      (FBlocked (match (if uni then c_blk_uni c else c_blk_bidi c) with
+                 | [] => None
+                 | _ :: _ => Some (if uni then c_ms_uni c else c_ms_bidi c)
+                 end), c)
   | OParamsP m md bl br un sb su =>
       let r := store_limits (match m with PAccepted => true | _ => false end) c
                  (orz md 0) (orz bl 0) (orz br 0) (orz un 0) (orz sb 0) (orz su 0) in
@@ -327,11 +337,13 @@ Definition frun (c : conn) (ops : list fop) : conn := fold_left (fun c op => snd
      10 sid acked a b fin  STREAM delivery       11 sid acked  RESET_STREAM delivery    12 sid  peer opens
      13 n sid1..sidn   observe (not an operation)
      14 sid  stop_stream      15 sid  _write_stop_sending_frame      16 sid acked  STOP_SENDING delivery
+     19 uni   the STREAMS_BLOCKED step of _write_application for one kind (0 bidi | 1 uni)
      18 mode (opt)x6  transport parameters, repaired function (mode 0 ticket | 1 0-RTT accepted | 2 not accepted)
      17   credit observation (not an operation): prints used max_data; the tie emits it before EVERY
           _write_stream_frame call, so the counter is compared between any two frames of one transmit
    output per op: outcome (0 ok | 1 sender-result.. | 2 max_offset sender-result.. | 3 ValueError |
-     4 code QuicConnectionError | 5 ineligible | 6 no stream | 7 STOP_SENDING written);
+     4 code QuicConnectionError | 5 ineligible | 6 no stream | 7 STOP_SENDING written |
+     8 (0 | 1 limit) STREAMS_BLOCKED not written / written with that limit);
    per observe: used max_data max_streams_bidi max_streams_uni #blocked_bidi #blocked_uni, then per listed
      stream (0 | 1 is_blocked max_stream_data_remote highest_offset buffer_is_empty reset_pending stop_pending) *)
 Definition out_fout (o : fout) : list Z :=
@@ -343,6 +355,8 @@ Definition out_fout (o : fout) : list Z :=
   | FQErr code => [4; code]
   | FIneligible => [5]
   | FStop => [7]
+  | FBlocked None => [8; 0]
+  | FBlocked (Some l) => [8; 1; l]
   | FNoStream => [6]
   end.
 
@@ -377,6 +391,7 @@ Definition parse_op (ops : list Z) : option (fop * list Z) :=
   | 14 :: sid :: t => Some (OStop sid, t)
   | 15 :: sid :: t => Some (OGetStop sid, t)
   | 16 :: sid :: k :: t => Some (OStopDeliv sid (z2b k), t)
+  | 19 :: uni :: t => Some (OBlockedFrame (z2b uni), t)
   | 18 :: m :: t =>
       let '(a, t) := tk_opt t in let '(b, t) := tk_opt t in let '(c, t) := tk_opt t in
       let '(d, t) := tk_opt t in let '(e, t) := tk_opt t in let '(f, t) := tk_opt t in
